@@ -401,6 +401,30 @@ PROPS['C08'] = {
 }
 
 
+PROPS['C18'] = {
+    'theorems': ['RQ.Push.C18_fault_is_error', 'RQ.Push.C18_success_means_no_fault', 'RQ.Push.C18_recorded_last'],
+    'verdict': 'C18',
+    'jobs': [{'quick': ['pushfault', 'seed={seed}', 'n=2500', 'perws=8'], 'thorough': ['pushfault', 'seed={seed}', 'n=60000', 'perws=64']}],
+    'nontrivial': lambda l: True,
+    'histogram': lambda c, d: ['op=' + (re.search(r'op=([a-z_]+)', c).group(1) if re.search(r'op=([a-z_]+)', c) else '?'),
+                               'where=' + ('applied-patches' if '6170706c6965642d70617463686573;' in c.split('|=>|')[-1].split('op=')[-1][:120] else
+                                           'rej' if '2e72656a;' in c.split('op=')[-1][:200] else 'pc' if 'op=' in c and c.split('op=')[-1].split(':')[1][:6] == '2e7063' else 'tree')],
+    'rule': "generated workspace (as for C05, up to 3 patches), one invocation; a fault-free run counts the n file-system write "
+            "operations (remove_file, create_dir_all, create, set_permissions, write of modified files, reject files, backup "
+            "files, .pc/applied-patches, remove_dir of emptied directories); then the same invocation is repeated in a fresh copy "
+            "once per fault position k (quick: all k if n <= 8 else 8 random k; thorough: all k up to 64) with the hook failing the "
+            "k-th operation. Every case is non-trivial (each is one (workspace, k) pair); distinct = hash of input incl. k",
+    'explanation': "Theorems (model with a fault index in the world): if the faulty operation was reached the outcome of push is "
+                   "'error' - exit 1, never success, never 'some patches failed', never a crash (C18_fault_is_error, for every "
+                   "configuration, workspace and k); a reported success means the fault was not hit; applied-patches is written "
+                   "only after applyPatches returned without error (C18_recorded_last). Implementation: for every k the real run "
+                   "must exit 1 (not 0, not a panic), leave .pc/applied-patches as it was, print a message naming the file, and "
+                   "agree with the model on exit status and on the number of operations of the fault-free run.",
+    'trusted': PUSH_TRUSTED + ["faults are injected at operation granularity by the cfg-guarded hook (src/rapidquilt/verif.rs), as io::Error from the hook point right before the real operation; real ENOSPC/EIO timing inside a write is not modelled"],
+    'assumptions': ["the tree at the point of failure depends on HashMap iteration order and is not compared; sequential driver (parallel faults: see C06 notes)"],
+}
+
+
 def field(line, name):
     m = re.search(r'(?:^| )' + re.escape(name) + r'=(\S*)', line)
     return m.group(1) if m else None
@@ -412,4 +436,4 @@ def replay_engine(path):
         if l and not l.startswith('#'):
             first = l
             break
-    return {'A': 'apply-replay', 'T': 'fuzzpair-replay', 'D': 'dist-replay', 'U': 'parse-replay', 'S': 'series-replay', 'P': 'path-replay', 'W': 'push-replay'}.get(first.split('|')[0], 'apply-replay')
+    return {'A': 'apply-replay', 'T': 'fuzzpair-replay', 'D': 'dist-replay', 'U': 'parse-replay', 'S': 'series-replay', 'P': 'path-replay', 'W': 'push-replay', 'F': 'pushfault-replay'}.get(first.split('|')[0], 'apply-replay')
